@@ -572,8 +572,10 @@ fn deviations(kind: &str) -> Vec<Dev> {
     // many lines: the decoded map has a huge generated line (serialisation is skipped there)
     d.push(Dev::Set(mptr.into(), json!(format!("{}AAAA", ";".repeat(100_001)))));
     d.push(Dev::Set(mptr.into(), json!("q////////D")));
+    // a line of 20 segments (so that range flags at in-line indices 8 and 16 have a token to land on)
+    d.push(Dev::Set(mptr.into(), json!(std::iter::once("AAAA").chain(std::iter::repeat("CAAA").take(19)).collect::<Vec<_>>().join(","))));
     if kind != "index" {
-        for s in ["B", "AAB", "AAg", "////", "A;;;;B", ";", "!", "é", "AAAAAAAAAAAAAAAAAAAAAAAAAAAAAAAAB;B;B;B"] {
+        for s in ["B", "AAB", "AAg", "////", "A;;;;B", ";", "!", "é", "AAAAAAAAAAAAAAAAAAAAAAAAAAAAAAAAB;B;B;B", "AE", "AAQ"] {
             d.push(Dev::Set("/rangeMappings".into(), json!(s)));
         }
     }
